@@ -184,6 +184,18 @@ def gen_world(rng):
                          "units": {"pressure_mode": "absolute", "pressure_unit": "bar", "loading_basis": "molar",
                                    "loading_unit": "mmol", "material_basis": "mass", "material_unit": "g", "temperature_unit": "K"},
                          "meta": {"flag": True}, "pressure": p, "loading": l, "branch": "ads", "other": {}})
+    if rng.random() < 0.3:
+        # an uptake reported as a fraction / percentage of the material (no loading or material unit at all)
+        T = isos[roles["family"][0]]["temperature"] if "family" in roles else temps[0]
+        p, l, _ = _toth(rng, T)
+        basis = rng.choice(["percent", "percent", "fraction"])
+        roles["fractional"] = len(isos)
+        isos.append({"kind": "point", "material": mat_a, "adsorbate": gas, "temperature": T,
+                     "units": {"pressure_mode": "absolute", "pressure_unit": "bar", "loading_basis": basis, "loading_unit": None,
+                               "material_basis": rng.choice(["mass", "mass", "molar", "volume"]), "material_unit": None,
+                               "temperature_unit": "K"},
+                     "meta": {}, "pressure": p, "loading": [x * (4.4 if basis == "percent" else 0.044) for x in l], "branch": "ads",
+                     "other": {}})
     ads = []
     if "usergas" in roles:
         props = {"molar_mass": 58.5}
